@@ -54,6 +54,10 @@ def _to_str(v):
     raise q.NotFoldable("to_unicode of %r" % (v,))
 
 
+_BUILTINS = {"len": len, "bool": bool, "int": int, "str": str, "min": min, "max": max, "abs": abs, "bytes": bytes, "repr": repr,
+             "tuple": lambda x=(): tuple(x), "list": lambda x=(): tuple(x), "sorted": lambda x: tuple(sorted(x)), "sum": sum, "any": any, "all": all,
+             "range": range, "set": lambda x=(): frozenset(x), "frozenset": lambda x=(): frozenset(x)}
+
 PURE_TEXT_METHODS = {"join", "encode", "decode", "lower", "upper", "strip", "lstrip", "rstrip", "startswith", "endswith", "split", "rsplit", "partition",
                      "rpartition", "replace", "format", "title", "capitalize", "zfill", "hex", "isdigit", "find", "count"}
 
@@ -225,6 +229,30 @@ def _fold3(e: ast.AST, known: Dict[str, object]):
         return last
     if isinstance(e, ast.UnaryOp) and isinstance(e.op, ast.Not):
         return not _fold3(e.operand, known)
+    if isinstance(e, (ast.Tuple, ast.List, ast.Set)) and not any(isinstance(x, ast.Starred) for x in e.elts):
+        vals = [_fold3(x, known) for x in e.elts]
+        return frozenset(vals) if isinstance(e, ast.Set) else tuple(vals)
+    if isinstance(e, ast.Compare):
+        # fold the operands with this evaluator (they may contain conversions, methods, model look-ups), then compare
+        operands = [_fold3(x, known) for x in [e.left] + list(e.comparators)]
+        for v in operands:
+            try:
+                hash(v)
+            except TypeError:
+                raise q.NotFoldable("unhashable operand")
+        names = {"@cmp%d" % i: v for i, v in enumerate(operands)}
+        cmp = ast.Compare(left=ast.Name(id="@cmp0", ctx=ast.Load()), ops=e.ops, comparators=[ast.Name(id="@cmp%d" % i, ctx=ast.Load()) for i in range(1, len(operands))])
+        return q.fold(cmp, names)
+    if isinstance(e, ast.IfExp):
+        return _fold3(e.body, known) if _fold3(e.test, known) else _fold3(e.orelse, known)
+    if isinstance(e, ast.Call) and isinstance(e.func, ast.Name) and e.func.id in _BUILTINS and not e.keywords and not any(isinstance(a, (ast.Starred, ast.GeneratorExp, ast.ListComp)) for a in e.args):
+        args = [_fold3(a, known) for a in e.args]
+        try:
+            return _BUILTINS[e.func.id](*args)
+        except q.NotFoldable:
+            raise
+        except Exception as ex:
+            raise q.NotFoldable(str(ex))
     if isinstance(e, ast.Name) and e.id not in known and e.id.endswith("]") and "[" in e.id:
         base, _, key = e.id.partition("[")
         if isinstance(known.get(base), frozenset):
@@ -285,6 +313,27 @@ def _fold3(e: ast.AST, known: Dict[str, object]):
             return base[idx]
         except Exception as ex:
             raise q.NotFoldable(str(ex))
+    if isinstance(e, ast.Call) and isinstance(e.func, ast.Attribute) and e.func.attr in ("search", "match", "fullmatch") and not e.keywords:
+        # a regular expression whose pattern is statically known, applied to a known subject: decided by the stdlib's
+        # own matcher (no code of the analysed tree runs).  Result: a truthy marker or None.
+        import re as _re
+
+        pattern = None
+        subject_expr = None
+        if q.dotted(e.func.value) == "re" and len(e.args) == 2 and isinstance(e.args[0], ast.Constant) and isinstance(e.args[0].value, (str, bytes)):
+            pattern, subject_expr = e.args[0].value, e.args[1]
+        elif len(e.args) == 1 and callable(known.get("@rx")):
+            pattern = known["@rx"](e.func.value)
+            subject_expr = e.args[0]
+        if pattern is not None and subject_expr is not None:
+            subject = _fold3(subject_expr, known)
+            if isinstance(subject, (str, bytes)) and type(subject) is type(pattern):
+                try:
+                    m = getattr(_re, e.func.attr)(pattern, subject)
+                except Exception as ex:
+                    raise q.NotFoldable(str(ex))
+                return "<match>" if m is not None else None
+        raise q.NotFoldable("regex on unknown operands")
     if isinstance(e, ast.Call) and isinstance(e.func, ast.Attribute) and e.func.attr == "get" and not e.keywords and 1 <= len(e.args) <= 2:
         # the header-set model: presence is known, values are not (a present value is a non-empty marker string)
         d = q.dotted(e.func.value)
@@ -547,6 +596,7 @@ def peval(
     infeasible under the rule's stated precondition."""
     ksm = dict(known_self_methods or {})
     pm = set(pure_methods)
+    fn_locals = q.local_names(cfg.fn) if hasattr(cfg.fn, "args") else set()
 
     def transfer(n: Node, val):
         env = dict(val)
@@ -560,18 +610,53 @@ def peval(
         return freeze(env)
 
     def edge(n: Node, kind: str, val):
+        if n.kind == "for" and kind in ("true", "false") and not isinstance(n.ast, ast.AsyncFor):
+            # a loop over a sequence whose content is known is iterated element by element
+            env = dict(val)
+            seq = try_fold(n.ast.iter, env)
+            if isinstance(seq, (tuple, str, bytes, range)) and len(seq) <= 16:
+                key = "@iter:%d" % n.id
+                idx = env.get(key, 0)
+                if kind == "true":
+                    if idx >= len(seq):
+                        return None
+                    item = seq[idx]
+                    item = bytes([item]) if isinstance(seq, bytes) and False else item
+                    _assign_target(env, n.ast.target, item, None)
+                    env[key] = idx + 1
+                else:
+                    if idx < len(seq):
+                        return None
+                    env.pop(key, None)
+                return freeze(env)
+            return val
         if n.kind == "test" and kind in ("true", "false"):
             env = dict(val)
             try:
                 v = pfold(n.ast, env)
             except q.NotFoldable:
+                # a test that mentions a value the valuation fixes but still cannot be decided (something else in it is
+                # unknown): paths through it are only "possible as far as the engine can see" — a rule must not report
+                # a violation from such a state (it should fail closed instead)
+                if not _allowed_opaque(n.ast, env):
+                    env["@undecided"] = True
+                if "@partial" not in env:
+                    try:
+                        mentioned = q.paths_in(prep(n.ast))
+                    except Exception:
+                        mentioned = set()
+                    if any((k in mentioned) and env[k] is not UNK and not k.startswith("@") and not k.startswith("call:") for k in env):
+                        # ... and what could not be resolved is a bare global name (a constant this evaluation should
+                        # have known), not an attribute of an object or the result of a call, which are opaque by nature
+                        bases = {id(x.value) for x in ast.walk(n.ast) if isinstance(x, ast.Attribute)} | {id(x.func) for x in ast.walk(n.ast) if isinstance(x, ast.Call)}
+                        free = [x.id for x in ast.walk(n.ast) if isinstance(x, ast.Name) and id(x) not in bases and x.id not in env and x.id not in fn_locals]
+                        if free:
+                            env["@partial"] = q.unparse(n.ast)[:80]
                 if on_edge is not None and on_edge(n, kind, env) == STOP:
                     return None
                 if refine:
                     _refine(env, n.ast, kind == "true")
-                if refine or on_edge is not None:
-                    return freeze(env)
-                return val
+                return freeze(env)
             except Exception:
                 return val
             if bool(v) != (kind == "true"):
@@ -680,3 +765,47 @@ def pure_self_methods(repo, relpath: str, clsname: str) -> Set[str]:
                     changed = True
                     break
     return pure
+
+
+
+def _allowed_opaque(test: ast.AST, env) -> bool:
+    return False
+
+
+def module_constants(fi) -> Dict[str, object]:
+    """Foldable module-level ``NAME = <constant expression>`` bindings of the function's module that the function does
+    not shadow: a literal hoisted to a module constant must evaluate like the literal."""
+    out: Dict[str, object] = {}
+    locs = q.local_names(fi.node) if hasattr(fi.node, "args") else set()
+    for name, value in fi.module.assigns.items():
+        if name in locs:
+            continue
+        try:
+            v = _fold3(prep(value), dict(out))
+            hash(v)
+        except Exception:
+            continue
+        out[name] = v
+    return out
+
+
+def class_constants(repo, relpath: str, clsname: str, prefix: str = "self.") -> Dict[str, object]:
+    out: Dict[str, object] = {}
+    for st in repo.cls(relpath, clsname).body:
+        tgt = st.targets[0] if isinstance(st, ast.Assign) and len(st.targets) == 1 else (st.target if isinstance(st, ast.AnnAssign) and st.value is not None else None)
+        if isinstance(tgt, ast.Name):
+            try:
+                v = _fold3(prep(st.value), {k[len(prefix):]: x for k, x in out.items()})
+                hash(v)
+            except Exception:
+                continue
+            out[prefix + tgt.id] = v
+    return out
+
+
+def partial_states(states) -> Optional[str]:
+    """The text of an undecided test on fixed inputs that some of the given (facts, env) states passed through, or None."""
+    for _f, env in states:
+        if env.get("@partial"):
+            return env["@partial"]
+    return None
